@@ -5,6 +5,8 @@ LangByName(n) == Library[CHOOSE i \in DOMAIN Library : LibraryNames[i] = n]
 EnvOr(k, d) == IF k \in DOMAIN IOEnv THEN IOEnv[k] ELSE d
 LngDef == LangByName(EnvOr("VERIF_LANG", "LTiny"))
 NamePoolDef == {"n1", "n1:1", NONE}
+\* behaviour generation also requests a name of the form the AUTOMATIC naming produces: "<first type>:1"
+NamePoolGen == NamePoolDef \cup {LngDef.assets[1].name \o ":1"}
 IdPoolDef == {NoId, 0, -1, 2}
 IdPoolSmall == {NoId, 0}
 IdPoolNone == {NoId}
